@@ -127,3 +127,114 @@ pub fn negacyclic_mul(a: &[u64], b: &[u64], q: u64) -> Vec<u64> {
         })
         .collect()
 }
+
+// ---------------------------------------------------------------------------------------------
+// O(N log N) reference for large degrees. A textbook radix-2 *cyclic* FFT over Z_q (bit-reversal
+// permutation followed by decimation-in-time butterflies, no lazy ranges, every product fully
+// reduced) plus the twist a_k -> a_k psi^k that turns it into the negacyclic transform. It shares
+// no code and no butterfly structure with the library's Harvey transform and is itself validated
+// against the by-definition transform above (`selftest_fast`, run by every check that uses it).
+// ---------------------------------------------------------------------------------------------
+
+/// in-place cyclic DFT: out[m] = sum_k a[k] * w^(m*k), w a primitive n-th root of unity mod q
+pub fn cyclic_fft(a: &mut [u64], w: u64, q: u64) {
+    let n = a.len();
+    assert!(n.is_power_of_two());
+    let bits = n.trailing_zeros();
+    for i in 0..n {
+        let j = bit_reverse(i, bits);
+        if i < j {
+            a.swap(i, j);
+        }
+    }
+    let mut len = 2;
+    while len <= n {
+        let wl = pow_mod(w, (n / len) as u64, q);
+        for start in (0..n).step_by(len) {
+            let mut x = 1u64;
+            for k in 0..len / 2 {
+                let u = a[start + k];
+                let v = mul_mod(a[start + k + len / 2], x, q);
+                a[start + k] = if u + v >= q { u + v - q } else { u + v };
+                a[start + k + len / 2] = if u >= v { u - v } else { u + q - v };
+                x = mul_mod(x, wl, q);
+            }
+        }
+        len *= 2;
+    }
+}
+
+/// forward negacyclic transform in the documented order: out[i] = a(psi^(2*brv(i)+1))
+pub fn fast_ntt(a: &[u64], psi: u64, q: u64) -> Vec<u64> {
+    let n = a.len();
+    let bits = n.trailing_zeros();
+    let mut b: Vec<u64> = vec![0; n];
+    let mut p = 1u64;
+    for k in 0..n {
+        b[k] = mul_mod(a[k] % q, p, q);
+        p = mul_mod(p, psi, q);
+    }
+    if n > 1 {
+        cyclic_fft(&mut b, mul_mod(psi, psi, q), q);
+    }
+    (0..n).map(|i| b[bit_reverse(i, bits)]).collect()
+}
+
+/// inverse of `fast_ntt`
+pub fn fast_intt(y: &[u64], psi: u64, q: u64) -> Vec<u64> {
+    let n = y.len();
+    let bits = n.trailing_zeros();
+    let mut b: Vec<u64> = (0..n).map(|m| y[bit_reverse(m, bits)] % q).collect();
+    let psi_inv = inv_mod_u64(psi, q).expect("root invertible");
+    if n > 1 {
+        cyclic_fft(&mut b, mul_mod(psi_inv, psi_inv, q), q);
+    }
+    let ninv = inv_mod_u64(n as u64 % q, q).expect("N invertible modulo q");
+    let mut p = ninv;
+    for k in 0..n {
+        b[k] = mul_mod(b[k], p, q);
+        p = mul_mod(p, psi_inv, q);
+    }
+    b
+}
+
+/// a*b mod (X^N+1, q) through the fast transform
+pub fn fast_negacyclic_mul(a: &[u64], b: &[u64], psi: u64, q: u64) -> Vec<u64> {
+    let fa = fast_ntt(a, psi, q);
+    let fb = fast_ntt(b, psi, q);
+    let fc: Vec<u64> = fa.iter().zip(&fb).map(|(&x, &y)| mul_mod(x, y, q)).collect();
+    fast_intt(&fc, psi, q)
+}
+
+/// fast transform == transform by definition, inverse, product, for N = 1..256 and three moduli each
+pub fn selftest_fast() -> Result<usize, String> {
+    let mut cnt = 0;
+    for logn in 0..=8usize {
+        let n = 1usize << logn;
+        let mut found = 0;
+        let mut q = (1u64 << 20) / (2 * n as u64) * (2 * n as u64) + 1;
+        while found < 3 {
+            q += 2 * n as u64;
+            let Some(psi) = min_primitive_root_2n_cyclic(n, q) else { continue };
+            if !(2..q).take_while(|d| d * d <= q).all(|d| q % d != 0) {
+                continue;
+            }
+            found += 1;
+            let ptab = power_table(psi, n, q);
+            let a: Vec<u64> = (0..n as u64).map(|i| (i * i * 7919 + 13 * i + q - 5) % q).collect();
+            let b: Vec<u64> = (0..n as u64).map(|i| (q - 1 - (i * 31337) % q) % q).collect();
+            let fa = fast_ntt(&a, psi, q);
+            if fa != ntt_by_definition(&a, &ptab, q) {
+                return Err(format!("fast_ntt != definition at N={n} q={q}"));
+            }
+            if fast_intt(&fa, psi, q) != a || fast_intt(&b, psi, q) != intt_by_definition(&b, &ptab, q) {
+                return Err(format!("fast_intt != definition at N={n} q={q}"));
+            }
+            if fast_negacyclic_mul(&a, &b, psi, q) != negacyclic_mul(&a, &b, q) {
+                return Err(format!("fast_negacyclic_mul != schoolbook at N={n} q={q}"));
+            }
+            cnt += 3;
+        }
+    }
+    Ok(cnt)
+}
